@@ -2832,7 +2832,18 @@ def structured(ctx, R, by_rc):
     S.run()
 
 
+# ------------------------------------------------------------------------------------------------
+# history / object-identity probes (harness/histories.py); the adapters of the four FEC properties live in harness/hist_fec.py
+def ENTRY_POINTS():
+    import hist_fec
+
+    return hist_fec.entry_points("c02")
+
+
 def run(ctx):
+    import histories
+
+    histories.run(ctx, ENTRY_POINTS)  # generic history / object-identity probes (adapters: harness/hist_fec.py)
     ctx.rule = (
         "message = 96 seeded random bits (plus all-zero, all-one, the 96 unit messages in thorough); error pattern = set of "
         "inverted on-air positions of weight 0..4 drawn from the structural classes of the 13x15 table (clean, single, "
@@ -3103,6 +3114,10 @@ def replay_history(inp, f):
 
 
 def replay(obj):
+    if str((obj.get("failure") or {}).get("kind", "")).startswith("history:"):
+        import histories
+
+        return histories.replay((obj.get("failure") or {}).get("input") or {}, ENTRY_POINTS)
     f = obj.get("failure") or {}
     inp = f.get("input", {})
     B = bptc()
